@@ -368,6 +368,14 @@ func (t *c14Task) observeCtx(p parsley.Parser, prepared *parsley.Context) (obs s
 		ctx = prepared
 	}
 	ctx.SetUserContext(fmt.Sprintf("uc%x", fnv(0, t.Input)&0xffff)) // every caller has its own evaluation context
+	// ... and its own keyword table (consulted by the user identifier parser of the tokens graph)
+	if h := fnv(1, t.Input); h&3 != 0 {
+		for i, kw := range []string{"foo_bar", "let", identFromPool(int(h>>8) % 1600), "nil"} {
+			if h>>(2+uint(i))&1 == 1 {
+				ctx.RegisterKeywords(kw)
+			}
+		}
+	}
 	if t.StaticCheck {
 		ctx.EnableStaticCheck()
 	}
